@@ -3,6 +3,7 @@
 From Coq Require Import List Arith NArith Bool Lia.
 From Verif Require Import model.CqlSyntax model.CqlPrinter.
 Import ListNotations.
+Close Scope N_scope.
 
 Section NodeInd.
   Variable P : node -> Prop.
@@ -26,7 +27,7 @@ Definition not_comb (b : boolop) (c : node) : Prop := forall gc, c <> Comb b gc.
    operator *)
 Inductive simplified : node -> Prop :=
 | simp_cond : forall pt k o v, simplified (Cond pt k o v)
-| simp_comb : forall b ch, 2 <= length ch -> Forall simplified ch -> Forall (not_comb b) ch ->
+| simp_comb : forall b ch, (2 <= length ch)%nat -> Forall simplified ch -> Forall (not_comb b) ch ->
     simplified (Comb b ch).
 
 Lemma boolop_eqb_eq a b : boolop_eqb a b = true <-> a = b.
@@ -98,7 +99,7 @@ Inductive nonempty_combs : node -> Prop :=
 | ne_cond : forall pt k o v, nonempty_combs (Cond pt k o v)
 | ne_comb : forall b ch, ch <> [] -> Forall nonempty_combs ch -> nonempty_combs (Comb b ch).
 
-Lemma promote_length b cs : Forall simplified cs -> length cs <= length (flat_map (promote b) cs).
+Lemma promote_length b cs : Forall simplified cs -> (length cs <= length (flat_map (promote b) cs))%nat.
 Proof.
   induction 1 as [|c cs Hc _ IH]; [simpl; lia|]. simpl. rewrite app_length.
   destruct c as [pt k o v|b' gc]; simpl; [lia|].
@@ -121,7 +122,7 @@ Proof.
 Qed.
 
 Example simplified_example :
-  simplified (Comb BOr [Cond PAttr [110] OpEqual [97]; Comb BAnd [Cond PField [120] OpEqual [49]; Cond PURN [116] OpContains [50]]]).
+  simplified (Comb BOr [Cond PAttr [110%N] OpEqual [97%N]; Comb BAnd [Cond PField [120%N] OpEqual [49%N]; Cond PURN [116%N] OpContains [50%N]]]).
 Proof.
   constructor; [simpl; lia| |].
   - repeat constructor; try (simpl; lia); intros gc; discriminate.
